@@ -15,7 +15,7 @@ def gen(c, binary):
 
 
 def run(c):
-    c.rule = ("random fault schedules (insert failure, lost answer / timeout, aggregator down/up, agent graceful stop or crash, "
+    c.rule = ("random fault schedules (INSERT answered 200 / 200+exception header / 500 with header / 500,502,503,504,413 without header / connection closed without answer; lost answer / timeout, aggregator down/up, agent graceful stop or crash, "
               "replica marked dead, historic memory budget nearly used up (exact ballast), disk cache switched off at run time, clock jumps, undecodable requests) over one real agent shard, three real aggregator "
               "replicas and a fake ClickHouse, followed by a fault-free continuation; one real call per model op; "
               "non-trivial = at least one fault AND at least one historic (re)send; distinct by op-sequence hash")
@@ -27,6 +27,10 @@ def run(c):
         "goTicker's conveyor-full branch and goEraseHistoric's disk-limit branch are not stepped (real-time / deliberate drops); "
         "the first is covered by the -mode=conveyor real-time scenario and a generated decision-site fact",
         "disk cache record format, torn writes and read errors are property C09",
+        "generated seconds have different sizes (base bucket + t%3 rows, stored frame so the size is a function of the second: "
+        "SH.Gen.C01.secBase/secRow); at most 2 historic senders are busy at a time and each reuses ONE scratch pad for every second it "
+        "reads from disk, as goSendHistoric does; a slow ClickHouse answer beyond ClickHouseTimeoutInsert (5 min) is not generated",
+        "an INSERT counts as done iff the fake endpoint read the whole body and answered HTTP 200 (headers and texts do not count)",
         "the historic memory limit is a 50 MiB constant: the harness adds an exactly accounted ballast to historicBucketsDataSize "
         "(model unit = one generated second's compressed size, model limit 1000 units) and diffs the counter after every op",
         "wake-up discipline on Shard.cond: model Wake (signal = wake one waiter, lost if none) + real-time tier -mode=wakeup with the real "
